@@ -957,7 +957,10 @@ func (c *Context) Ln(d, x *Decimal) (Condition, error) {
 		return 0, err
 	}
 	res := c.round(d, &tmp1)
-	res |= Inexact
+	// The result is never exact here (ln(1) returned above), and what is
+	// inexact has been rounded: Rounded goes with Inexact even when the
+	// working result happens to fit the precision.
+	res |= Inexact | Rounded
 	return c.goError(res)
 }
 
@@ -968,7 +971,7 @@ func (c *Context) Log10(d, x *Decimal) (Condition, error) {
 	}
 
 	// TODO(mjibson): This is exact under some conditions.
-	res := Inexact
+	res := Inexact | Rounded
 
 	nc := BaseContext.WithPrecision(c.Precision + 2)
 	nc.Rounding = RoundHalfEven
@@ -1304,7 +1307,7 @@ func (c *Context) Pow(d, x, y *Decimal) (Condition, error) {
 	}
 	res |= c.round(d, &tmp)
 	d.Negative = neg
-	res |= Inexact
+	res |= Inexact | Rounded
 	return c.goError(res)
 }
 
